@@ -1192,7 +1192,10 @@ def c12(case, F):
         for o in tr_ops:
             e = o["end"]
             if e["k"] == "ret" and o["call"]["a"].get("final"):
-                miss = [nm for nm in registered if nm not in (e["r"].get("res") or []) and not any(k > 0 for k in killed_times)]
+                # files registered after the last tracker death (or in trees without any) must still exist while the root runs
+                last_kill = max(killed_times) if killed_times else float("-inf")
+                reg_t = {o2["call"]["a"].get("name"): o2["call"]["t"] for o2 in tr_ops if o2["call"]["a"]["what"] == "register_file" and o2["end"]["k"] == "ret"}
+                miss = [nm for nm in registered if nm not in (e["r"].get("res") or []) and reg_t.get(nm, 0) > last_kill]
                 miss += [nm for nm, t in child_files if nm not in (e["r"].get("res") or []) and not any(k > t for k in killed_times)]
                 if miss:
                     v.append((_sig(case, F, "resource_removed_while_tree_alive"), witness_text(case, F, "registered file(s) %s disappeared while the root was still running" % miss)))
